@@ -165,3 +165,26 @@ Proof. intros Ht Hn. destruct t as [|a t']; [contradiction|]. destruct n as [|b 
   - match goal with |- (if ?c then 0 else ?s2) = 0 \/ _ => destruct c; [now left|] end.
     match goal with |- back ?P ?k = 0 \/ _ => destruct (back_spec P k) as [H|H]; [now left|right] end.
     now apply orb_false_iff in H. Qed.
+
+(* what trimming is for: replacing only the untrimmed middle of the target, in place, IS replacing the whole target by the whole new
+   text - in every surrounding text *)
+Lemma three_parts (l : str) p s : p + s <= length l -> l = firstn p l ++ slice l p (length l - s) ++ lastn s l.
+Proof. intros H. unfold slice, lastn. rewrite <- (firstn_skipn p l) at 1. f_equal.
+  rewrite <- (firstn_skipn (length l - s - p) (skipn p l)) at 1. f_equal.
+  rewrite skipn_skipn'. replace (p + (length l - s - p)) with (length l - s) by lia. reflexivity. Qed.
+Theorem trim_replace (t n : str) p s (pre post : str) : Good t n (p, s) ->
+  firstn (length pre + p) (pre ++ t ++ post) ++ slice n p (length n - s) ++ skipn (length pre + (length t - s)) (pre ++ t ++ post)
+  = pre ++ n ++ post.
+Proof. intros H. unfold Good in H. destruct H as (Hl & Hp & Hs).
+  pose proof (Nat.le_min_l (length t) (length n)) as M1. pose proof (Nat.le_min_r (length t) (length n)) as M2.
+  assert (Ht : p + s <= length t) by exact (Nat.le_trans _ _ _ Hl M1). assert (Hn : p + s <= length n) by exact (Nat.le_trans _ _ _ Hl M2). clear M1 M2 Hl.
+  rewrite firstn_app_2.
+  assert (E1 : firstn p (t ++ post) = firstn p t).
+  { rewrite firstn_app. replace (p - length t) with 0 by lia. rewrite firstn_O. apply app_nil_r. }
+  rewrite E1.
+  assert (E2 : skipn (length pre + (length t - s)) (pre ++ t ++ post) = lastn s t ++ post).
+  { rewrite skipn_app. assert (E : skipn (length pre + (length t - s)) pre = []) by (apply skipn_all2; lia). rewrite E. cbn [app].
+    replace (length pre + (length t - s) - length pre) with (length t - s) by lia.
+    rewrite skipn_app. replace (length t - s - length t) with 0 by lia. reflexivity. }
+  rewrite E2, Hp, Hs. rewrite <- app_assoc. f_equal.
+  transitivity ((firstn p n ++ slice n p (length n - s) ++ lastn s n) ++ post); [now rewrite <- !app_assoc|now rewrite <- (three_parts n p s Hn)]. Qed.
